@@ -4,6 +4,7 @@ import (
 	"fmt"
 	"go/token"
 	"go/types"
+	"sort"
 	"strings"
 
 	"golang.org/x/tools/go/ssa"
@@ -51,7 +52,7 @@ func loopCounter(l *Loop, tm *Termer) (bound *Term, phi *ssa.Phi, ok bool) {
 
 // C20 — experiment protocol.
 func C20(p *Prog, r *Run) {
-	r.Explanation = "Decided on Experiment.Execute by flag-sensitive path search over its SSA control-flow graph (two loops; the observer's nil-ness is tracked along each path): per trial iteration exactly one NewPopulation(start genome, options) before the generation loop, TrialRunStarted exactly once before the first generation, the trial recorded exactly once at e.Trials[run] on every non-error path, TrialRunFinished exactly once on every non-error path and never followed by EpochEvaluated; per generation iteration the context test precedes the evaluation and, on every path after it on which the Done channel was ready, Execute returns Err() of that same context (read after the test) before any further event of the protocol (phis, result variables and result slots resolved along the path), exactly one GenerationEvaluate whose error returns at once, NextEpoch only under !Solved, at most once, its error returned, append-then-EpochEvaluated exactly once in that order, under Solved the iteration leaves the loop; counters run 0,1,… below NumRuns / NumGenerations, tested in the effect-free loop condition (any spelling of the test; the loop condition may additionally test a flag that is raised only under generation.Solved, nothing else), a break out of the generation loop only under Solved; the record handed to the evaluator is allocated or reset in every generation so that its Solved flag is false at the call; every notification is delivered to the observer parameter whenever it is non-nil and, when it is nil, is either not executed or addressed to a substitute whose method body is empty (decided per value that can be the receiver, on the edge that selects it); the errors of GenerationEvaluate / NextEpoch are the value returned on every path after the failing call (phis resolved along the path); the executor selection covers every EpochExecutorType constant and errors when all type tests fail (decided per way the operands of each return can be chosen). Assumption: the observer and NextEpoch do not flip generation.Solved between its two reads. Not decided: what the evaluator, observer and executor do."
+	r.Explanation = "Decided on Experiment.Execute by flag-sensitive path search over its SSA control-flow graph (two loops; the observer's nil-ness is tracked along each path): per trial iteration exactly one NewPopulation(start genome, options) before the generation loop, TrialRunStarted exactly once before the first generation, the trial recorded exactly once at e.Trials[run] on every non-error path, TrialRunFinished exactly once on every non-error path and never followed by EpochEvaluated; per generation iteration the context test precedes the evaluation and, on every path after it on which the Done channel was ready, Execute returns Err() of that same context (read after the test) before any further event of the protocol (phis, result variables and result slots resolved along the path), exactly one GenerationEvaluate whose error returns at once, NextEpoch only under !Solved, at most once, its error returned, append-then-EpochEvaluated exactly once in that order, under Solved the iteration leaves the loop; counters run 0,1,… below NumRuns / NumGenerations, tested in the effect-free loop condition (any spelling of the test; the loop condition may additionally test a flag that is raised only under generation.Solved, nothing else), a break out of the generation loop only under Solved; the record handed to the evaluator is allocated or reset in every generation so that its Solved flag is false at the call; every notification is delivered to the observer parameter whenever it is non-nil and, when it is nil, is either not executed or addressed to a substitute whose method body is empty (decided per value that can be the receiver, on the edge that selects it); the errors of GenerationEvaluate / NextEpoch are the value returned on every path after the failing call (phis resolved along the path); the executor selection covers every EpochExecutorType constant and errors when all type tests fail (decided per way the operands of each return can be chosen).; with the options present in the context nothing returns before the trial loop, and every return that leaves the trial loop from its body returns a value that is a non-nil error on the path taken (a nil test of that value passed, or an error by construction); the result holder e.Trials is only ever replaced by make(Trials, <bound of the trial loop>) before the first trial or while nil, a nil holder never reaches the recording store, and the repository's caller of Execute (func main of the root package) hands over no holder or one made from NumRuns of the options in the call's context with no write of NumRuns between the sizing and the call (ordering across function literals by the places where they are started); the values the events carry are identified (recorded trial = trial shown to the observer = trial the generations are appended to, fresh per trial, numbered by the trial counter; record appended and shown = record the evaluator filled, numbered by the generation and trial counters; population evaluated = population turned over = population spawned for the trial; NextEpoch is told the generation counter). Assumption: the observer and NextEpoch do not flip generation.Solved between its two reads. Not decided: what the evaluator, observer and executor do."
 	ex := p.Func(PkgE, "Experiment.Execute")
 	r.Fn(FuncName(ex))
 	tm := NewTermer(ex)
@@ -230,6 +231,75 @@ func C20(p *Prog, r *Run) {
 				rt = &Term{Op: "nil"}
 			}
 			r.Check(rt.Op != "nil", "trial.returns-inside-loop", p.Pos(ret.Pos()), "a return inside the trial loop carries an error: "+rt.String(), "Execute returns nil from inside the trial loop: the remaining trials are silently skipped")
+		}
+		// ... and it is a failure that ends the run early: on every path that leaves the trial loop from its body the value
+		// returned is known to be non-nil on that path (a nil test of that very value passed on the way, phis and result
+		// variables resolved along the path) or is an error by construction (ctx.Err() after the Done test - see
+		// generation.ctx.returns-err -, a freshly built error, a package-level Err… value). An inverted error test
+		// (`if err == nil { return err }`) returns nil after the first step of the first trial: no trial is executed.
+		// Decided by walking one iteration of the trial loop from each edge on which it starts (the generation loop inside
+		// is walked until no new combination of resolved values turns up); one verdict per Return reached.
+		{
+			verdict := map[*ssa.Return]string{}
+			var order []*ssa.Return
+			overflow := ""
+			for _, e := range cOuter.Starts() {
+				w := &c20RetWalk{P: p, Learn: true, Init: condsAt(e[0], e[1]), StopEdge: func(a, b *ssa.BasicBlock) bool {
+					return b == outer.Header || cOuter.IsCondExit(a, b)
+				}}
+				if why := w.Run(e[1], e[0], 0, func(ret *ssa.Return, got ssa.Value) string {
+					msg := ""
+					switch {
+					case got == nil:
+						msg = "a return without a value"
+					case w.RetNil == c20NonNil || c20ErrorByConstruction(got):
+					case w.RetNil == c20IsNil:
+						msg = "the value returned is nil on a path: " + tm.Of(got).String()
+					default:
+						msg = "the value returned is not known to be a non-nil error on a path: " + tm.Of(got).String()
+					}
+					if _, seen := verdict[ret]; !seen {
+						order = append(order, ret)
+						verdict[ret] = msg
+					} else if verdict[ret] == "" {
+						verdict[ret] = msg
+					}
+					return ""
+				}); why != "" {
+					overflow = why
+				}
+			}
+			if overflow != "" {
+				r.Undecided("trial.leaves-loop.failure", p.Pos(outer.Header.Instrs[0].Pos()), "the paths of one trial iteration could not be enumerated: "+overflow)
+			}
+			sort.Slice(order, func(i, j int) bool { return order[i].Block().Index < order[j].Block().Index })
+			for _, ret := range order {
+				r.Check(verdict[ret] == "", "trial.leaves-loop.failure", p.Pos(ret.Pos()), "the trial loop is left early only with a non-nil error in hand",
+					"Execute can leave the trial loop early without a failure: "+verdict[ret]+"; the remaining trials are silently skipped")
+			}
+		}
+		// with the options present nothing ends the run before the first trial
+		{
+			var found []ssa.Value
+			for _, c := range CallsTo(ex, p.Func(PkgT, "FromContext")) {
+				if v, ok := c.(ssa.Value); ok && v.Referrers() != nil {
+					for _, ref := range *v.Referrers() {
+						if x, isX := ref.(*ssa.Extract); isX && x.Index == 1 {
+							found = append(found, x)
+						}
+					}
+				}
+			}
+			w := &c20RetWalk{P: p, True: found, Learn: true, StopEdge: func(a, b *ssa.BasicBlock) bool { return b == outer.Header }}
+			why := w.Run(ex.Blocks[0], nil, 0, func(ret *ssa.Return, got ssa.Value) string {
+				g := "nothing"
+				if got != nil {
+					g = tm.Of(got).String()
+				}
+				return "Execute returns " + g + " @" + p.Pos(ret.Pos()) + " before the first trial although the context carries the options"
+			})
+			r.Check(why == "", "run.starts", p.Pos(ex.Pos()), "whenever neat.FromContext reports the options present, control reaches the trial loop",
+				why+": no trial is executed")
 		}
 		exactlyOnce(outer, "NewPopulation", isNewPop, false, "trial.NewPopulation")
 		for _, s := range findAll(isNewPop) {
@@ -567,6 +637,40 @@ func C20(p *Prog, r *Run) {
 				leaves = append(leaves, c20ReturnLeaves(ret)...)
 			}
 		}
+		// the `found` results of the options lookup
+		foundVals := map[ssa.Value]bool{}
+		for _, c := range CallsTo(sel, p.Func(PkgT, "FromContext")) {
+			if cv, ok := c.(ssa.Value); ok && cv.Referrers() != nil {
+				for _, ref := range *cv.Referrers() {
+					if x, isX := ref.(*ssa.Extract); isX && x.Index == 1 {
+						foundVals[x] = true
+					}
+				}
+			}
+		}
+		// foundOn: what the guards of a leaf say about `found` (+1 options present, -1 absent, 0 nothing)
+		foundOn := func(gs []Guard) int {
+			res := 0
+			for _, g := range gs {
+				c, val := g.Cond, g.True
+				for {
+					u, isNot := c.(*ssa.UnOp)
+					if !isNot || u.Op != token.NOT {
+						break
+					}
+					c, val = u.X, !val
+				}
+				if foundVals[c] {
+					if val {
+						res = 1
+					} else {
+						res = -1
+					}
+				}
+			}
+			return res
+		}
+		lookupBad := ""
 		for _, lf := range leaves {
 			ret := lf.Ret
 			v, e := ts.Of(lf.Vals[0]), ts.Of(lf.Vals[1])
@@ -587,6 +691,12 @@ func C20(p *Prog, r *Run) {
 					}
 				}
 			}
+			// with the options present the selection looks at the executor type; it gives up without looking only when they are absent
+			if f := foundOn(lf.Guards); typeTests == 0 && f != -1 && lookupBad == "" {
+				lookupBad = "the return @" + p.Pos(ret.Pos()) + " (" + v.String() + ", " + e.String() + ") is taken without examining the executor type although the options may be present"
+			} else if typeTests > 0 && f == -1 && lookupBad == "" {
+				lookupBad = "the executor type is examined @" + p.Pos(ret.Pos()) + " only when the options are absent"
+			}
 			if matched != "" {
 				want := strings.TrimPrefix(matched, "EpochExecutorType") + "PopulationEpochExecutor"
 				okT := e.Op == "nil" && strings.Contains(v.String(), "genetics."+want)
@@ -605,12 +715,394 @@ func C20(p *Prog, r *Run) {
 				r.Bad("executor."+c.Name(), p.Pos(sel.Pos()), "executor type "+c.Name()+" is not handled by epochExecutorForContext")
 			}
 		}
+		r.Check(lookupBad == "" && len(foundVals) > 0, "executor.options-present", p.Pos(sel.Pos()), "whenever the context carries the options the selection is made on their executor type; the lookup error is returned only when they are absent",
+			"the options lookup of the executor selection is not honoured: "+lookupBad+map[bool]string{true: "", false: "the `found` result of neat.FromContext is not used"}[len(foundVals) > 0]+"; every trial fails before its first generation")
 		r.Floor("EpochExecutorType constants", len(consts), 2)
 		r.Check(errDefault, "executor.default", p.Pos(sel.Pos()), "an unknown executor type yields an error", "an unknown executor type does not yield an error")
 		// Execute uses it once per trial and returns its error
 		cs := CallsTo(ex, sel)
 		r.Check(len(cs) == 1 && !inner.Blocks[cs[0].Block()], "executor.use", p.Pos(ex.Pos()), "selected once per trial", "the executor is not selected exactly once per trial outside the generation loop")
 	})
+
+	r.Rule("C20.5", "what the events carry: the trial value recorded at e.Trials[run] is the one the observer was shown and the generations were appended to, it is fresh in every trial and numbered by the trial counter; the generation record appended to it and shown to the observer is the one the evaluator filled, numbered by the generation counter and the trial counter; the population evaluated and turned over is the one spawned for this trial, and the turnover is told the generation counter", func() {
+		_, runPhi, _, okRun := cOuter.Counter(tm)
+		_, genPhi, _, okGen := cInner.Counter(tm)
+		isCounter := func(v ssa.Value, ph *ssa.Phi, ok bool) bool { return ok && c20Strip(v) == ssa.Value(ph) }
+		// the trial value
+		var T *ssa.Alloc
+		for _, s := range findAll(isTrialStore) {
+			ld, isLoad := c20Strip(s.(*ssa.Store).Val).(*ssa.UnOp)
+			var a *ssa.Alloc
+			if isLoad && ld.Op == token.MUL {
+				a = c20AllocOf(ld.X)
+			}
+			if a == nil {
+				r.Bad("carry.trial.recorded", p.Pos(s.Pos()), "the value recorded at e.Trials[run] is not the content of a trial variable: "+tm.Of(s.(*ssa.Store).Val).String())
+				continue
+			}
+			if T != nil && T != a {
+				r.Bad("carry.trial.recorded", p.Pos(s.Pos()), "two different trial variables are recorded")
+				continue
+			}
+			T = a
+			r.OK("carry.trial.recorded", p.Pos(s.Pos()), "the content of one trial variable is recorded")
+		}
+		if T == nil {
+			r.Undecided("carry.trial", p.Pos(ex.Pos()), "no trial variable identified")
+			return
+		}
+		for _, name := range []string{"TrialRunStarted", "EpochEvaluated", "TrialRunFinished"} {
+			for _, s := range findAll(isInvoke(name)) {
+				args := s.(ssa.CallInstruction).Common().Args
+				r.Check(len(args) > 0 && c20AllocOf(args[0]) == T, "carry.trial."+name, p.Pos(s.Pos()), name+" is shown the trial that is recorded",
+					name+" is shown another trial value than the one recorded at e.Trials[run]")
+			}
+		}
+		// fresh in every trial: allocated, or overwritten with a fresh literal, inside the trial loop before the generation loop
+		fresh := outer.Blocks[T.Block()] && !inner.Blocks[T.Block()] && T.Block().Dominates(inner.Header)
+		if !fresh && T.Referrers() != nil {
+			for _, ref := range *T.Referrers() {
+				if st, ok := ref.(*ssa.Store); ok && st.Addr == ssa.Value(T) && outer.Blocks[st.Block()] && !inner.Blocks[st.Block()] &&
+					st.Block().Dominates(inner.Header) && c20FreshStructValue(st.Val, outer, nil) {
+					fresh = true
+				}
+			}
+		}
+		r.Check(fresh, "carry.trial.fresh", p.Pos(T.Pos()), "the trial variable starts empty in every trial",
+			"the trial variable is neither allocated nor reset inside the trial loop before the generation loop: a trial starts with the generations of the previous one")
+		checkDefs := func(a *ssa.Alloc, typ, field string, ph *ssa.Phi, okPh bool, label, what string) {
+			defs := c20HolderDefs(a, p.Field(PkgE, typ, field))
+			bad := ""
+			n := 0
+			for _, d := range defs {
+				switch {
+				case d.Why != "":
+					bad = d.Why
+				case d.Val == nil:
+					// a whole-value reset without the field: fine when a field store follows; counted below
+				case !isCounter(d.Val, ph, okPh):
+					got := tm.Of(d.Val).String()
+					if isCounter(d.Val, runPhi, okRun) {
+						got = "the trial counter"
+					} else if isCounter(d.Val, genPhi, okGen) {
+						got = "the generation counter"
+					}
+					bad = typ + "." + field + " is set to " + got + " @" + p.Pos(d.At.Pos())
+				default:
+					n++
+				}
+			}
+			if bad == "" && n == 0 {
+				bad = typ + "." + field + " is never set"
+			}
+			r.Check(bad == "", label, p.Pos(a.Pos()), typ+"."+field+" is "+what, typ+"."+field+" is not "+what+": "+bad)
+		}
+		checkDefs(T, "Trial", "Id", runPhi, okRun, "carry.trial.id", "the trial counter")
+		// the generation record
+		var G *ssa.Alloc
+		for _, s := range findAll(isInvoke("GenerationEvaluate")) {
+			args := s.(ssa.CallInstruction).Common().Args
+			if a := c20AllocOf(args[len(args)-1]); a != nil {
+				G = a
+			}
+		}
+		if G == nil {
+			r.Undecided("carry.generation", p.Pos(ex.Pos()), "no generation record identified (see generation.record.fresh)")
+		} else {
+			for _, s := range findAll(isInvoke("EpochEvaluated")) {
+				args := s.(ssa.CallInstruction).Common().Args
+				r.Check(len(args) > 1 && c20AllocOf(args[1]) == G, "carry.generation.EpochEvaluated", p.Pos(s.Pos()), "the observer is shown the record the evaluator filled",
+					"EpochEvaluated is shown another generation record than the one handed to the evaluator")
+			}
+			for _, s := range findAll(isAppendGen) {
+				st := s.(*ssa.Store)
+				okApp, why := c20AppendsRecord(st, T, G)
+				r.Check(okApp, "carry.generation.append", p.Pos(s.Pos()), "the evaluated record is appended to the generations of the recorded trial", "the append does not add the evaluated record to the recorded trial's generations: "+why)
+			}
+			checkDefs(G, "Generation", "Id", genPhi, okGen, "carry.generation.id", "the generation counter")
+			checkDefs(G, "Generation", "TrialId", runPhi, okRun, "carry.generation.trial-id", "the trial counter")
+		}
+		// the population
+		isSpawned := func(v ssa.Value) bool {
+			alts := tm.Of(v).Alternatives()
+			n := 0
+			for _, a := range alts {
+				if a.Op == "nil" {
+					continue
+				}
+				if !(a.Op == "extract" && a.Idx == 0 && len(a.Args) == 1 && a.Args[0].Op == "call" && a.Args[0].Obj == types.Object(p.Func(PkgG, "NewPopulation").Object())) {
+					return false
+				}
+				n++
+			}
+			return n > 0
+		}
+		var popEval ssa.Value
+		for _, s := range findAll(isInvoke("GenerationEvaluate")) {
+			args := s.(ssa.CallInstruction).Common().Args
+			if len(args) < 3 {
+				continue
+			}
+			popEval = args[1]
+			r.Check(isSpawned(args[1]), "carry.population.evaluate", p.Pos(s.Pos()), "the evaluator receives the population spawned for this trial", "the evaluator receives "+tm.Of(args[1]).String()+", not the population spawned for this trial")
+		}
+		for _, s := range findAll(isInvoke("NextEpoch")) {
+			args := s.(ssa.CallInstruction).Common().Args
+			if len(args) < 3 {
+				continue
+			}
+			same := popEval != nil && (c20Strip(args[2]) == c20Strip(popEval) || CanonTerm(tm.Of(args[2])) == CanonTerm(tm.Of(popEval)))
+			r.Check(same && isSpawned(args[2]), "carry.population.turnover", p.Pos(s.Pos()), "the population turned over is the one that was evaluated", "NextEpoch turns over "+tm.Of(args[2]).String()+", not the population that was evaluated")
+			r.Check(isCounter(args[1], genPhi, okGen), "carry.turnover.generation", p.Pos(s.Pos()), "the turnover is told the generation counter", "NextEpoch is told generation "+tm.Of(args[1]).String()+", not the generation counter")
+		}
+	})
+
+	r.Rule("C20.4", "the result holder has exactly one slot per executed trial: whatever Execute stores into e.Trials is make(Trials, <bound of the trial loop>), stored before the first trial or only while the holder is nil, and a nil holder never reaches the recording store; every repository caller that hands Execute a holder it built itself sizes it from NumRuns of the options object the call's context carries, and NumRuns is not written between that read and the call (a holder of another length means phantom empty trials in Experiment.Trials, or an index out of range after a trial was evaluated)", func() {
+		trialsFld := p.Field(PkgE, "Experiment", "Trials")
+		bound, _, _, okC := cOuter.Counter(tm)
+		isHolderLoad := func(v ssa.Value) bool {
+			u, ok := v.(*ssa.UnOp)
+			if !ok || u.Op != token.MUL {
+				return false
+			}
+			fa, ok := u.X.(*ssa.FieldAddr)
+			return ok && fieldOf(fa.X.Type(), fa.Field) == trialsFld && tm.Of(fa.X).Op == "recv"
+		}
+		// (a) inside Execute
+		var holderStores []*ssa.Store
+		for _, st := range FieldStores(ex, trialsFld) {
+			if tm.Of(st.Addr.(*ssa.FieldAddr).X).Op == "recv" {
+				holderStores = append(holderStores, st)
+			}
+		}
+		alwaysSized := false
+		for _, st := range holderStores {
+			v := st.Val
+			for {
+				ct, ok := v.(*ssa.ChangeType)
+				if !ok {
+					break
+				}
+				v = ct.X
+			}
+			ms, isMake := v.(*ssa.MakeSlice)
+			sized := isMake && okC && CanonTerm(tm.Of(ms.Len)) == CanonTerm(bound)
+			got := tm.Of(st.Val).String()
+			r.Check(sized, "holder.execute.sized", p.Pos(st.Pos()), "Execute sizes the holder with the bound of the trial loop: "+got,
+				fmt.Sprintf("Execute replaces the result holder by %s, which does not have one slot per trial of the loop bound %v", got, bound))
+			first := !outer.Blocks[st.Block()] && c20Reach(st, outer.Header.Instrs[0])
+			whileNil := false
+			for _, g := range Guards(st.Block()) {
+				if GuardNilness(g, isHolderLoad) == 1 {
+					whileNil = true
+				}
+			}
+			r.Check(first || whileNil, "holder.execute.before-trials", p.Pos(st.Pos()), "the holder is replaced only before the first trial or while it is still nil",
+				"Execute replaces the result holder after trials may have been recorded in it: their results are lost")
+			if sized && !outer.Blocks[st.Block()] && st.Block().Dominates(outer.Header) {
+				alwaysSized = true
+			}
+		}
+		isHolderStore := func(in ssa.Instruction) bool {
+			for _, st := range holderStores {
+				if in == ssa.Instruction(st) {
+					return true
+				}
+			}
+			return false
+		}
+		// with no holder at entry and none stored, the holder is still nil: an edge that is taken only when a load of it is non-nil is infeasible
+		knownNonNil := func(a, b *ssa.BasicBlock) bool {
+			for _, g := range condsAt(a, b) {
+				if GuardNilness(g, isHolderLoad) == -1 {
+					return true
+				}
+			}
+			return false
+		}
+		for _, s := range findAll(isTrialStore) {
+			path := FindPath(p, PathQuery{Fn: ex, Target: func(in ssa.Instruction) bool { return in == s }, Avoid: isHolderStore, AvoidEdge: knownNonNil, Explored: &r.PathsExplored})
+			if path != nil {
+				r.Bad("holder.execute.allocates", p.Pos(s.Pos()), "an experiment that comes without a holder reaches the recording store with e.Trials still nil (index out of range after the first trial)", path...)
+			} else {
+				r.OK("holder.execute.allocates", p.Pos(s.Pos()), "an experiment without a holder gets one before the first trial is recorded")
+			}
+		}
+		// (b) the callers in the repository
+		n := 0
+		for _, fn := range p.SrcFuncs() {
+			if fn == ex {
+				continue
+			}
+			for _, c := range CallsTo(fn, ex) {
+				n++
+				r.Fn(FuncName(fn))
+				if alwaysSized {
+					r.OK("holder.driver", p.Pos(c.Pos()), "Execute sizes the holder itself before the first trial, whatever the caller passed")
+					continue
+				}
+				c20DriverHolder(p, r, ex, c)
+			}
+		}
+		r.Note("C20.4: %d call(s) of Experiment.Execute in non-test code of the repository", n)
+	})
+}
+
+// c20DriverHolder decides, for one call of Experiment.Execute outside Execute, that the experiment's holder is absent or
+// has exactly NumRuns slots of the options the call runs with (see robust_c20.go, fourth round).
+func c20DriverHolder(p *Prog, r *Run, ex *ssa.Function, call ssa.CallInstruction) {
+	pos := p.Pos(call.Pos())
+	trialsFld := p.Field(PkgE, "Experiment", "Trials")
+	numRuns := p.Field(PkgT, "Options", "NumRuns")
+	optsT := types.Type(p.Named(PkgT, "Options"))
+	newCtx := p.Func(PkgT, "NewContext")
+	args := call.Common().Args
+	tmOf := func(v ssa.Value) string {
+		if in, ok := v.(ssa.Instruction); ok && in.Parent() != nil {
+			return NewTermer(in.Parent()).Of(v).String()
+		}
+		return v.String()
+	}
+	if len(args) < 2 {
+		r.Undecided("holder.driver.sized", pos, "Execute is not called as a method with a context argument")
+		return
+	}
+	// the options the call runs with
+	ctxCall, ok := c20Origin(args[1]).(*ssa.Call)
+	if !ok || ctxCall.Call.StaticCallee() != newCtx || len(ctxCall.Call.Args) != 2 {
+		r.Undecided("holder.driver.sized", pos, "the context handed to Execute is not the result of neat.NewContext in the calling function: "+tmOf(args[1]))
+		return
+	}
+	optsE := c20Origin(ctxCall.Call.Args[1])
+	// the experiment
+	cell := c20CellOf(args[0])
+	if cell == nil {
+		r.Undecided("holder.driver.sized", pos, "the experiment Execute is called on is not a local variable of the calling function: "+tmOf(args[0]))
+		return
+	}
+	family := c20Family(call.Parent())
+	memo := map[*ssa.Function]bool{}
+	// who else may write the holder before the call: a repository function that receives the experiment's address
+	var problems []string
+	type sizing struct {
+		ld *ssa.UnOp
+		at ssa.Instruction
+	}
+	var sizingLoads []sizing
+	holderDefs := c20HolderDefs(cell, trialsFld)
+	trialsWriter := map[*ssa.Function]bool{}
+	for _, a := range c20Aliases(cell) {
+		if a.Referrers() == nil {
+			continue
+		}
+		for _, ref := range *a.Referrers() {
+			ci, isCall := ref.(ssa.CallInstruction)
+			if !isCall || ci == call {
+				continue
+			}
+			callee := ci.Common().StaticCallee()
+			if callee == ex || !c20FieldWriter(callee, trialsFld, types.Type(p.Named(PkgE, "Experiment")), trialsWriter) {
+				continue
+			}
+			if may, known := c20MayPrecede(ci, call); may || !known {
+				problems = append(problems, "the holder can be replaced by "+FuncName(callee)+" @"+p.Pos(ci.Pos())+" before the call")
+			}
+		}
+	}
+	for _, d := range holderDefs {
+		if d.Why != "" {
+			at := ""
+			if d.At != nil {
+				at = " @" + p.Pos(d.At.Pos())
+			}
+			problems = append(problems, d.Why+at)
+			continue
+		}
+		if d.Val == nil || c20IsNilConst(d.Val) {
+			continue // no holder: Execute allocates it
+		}
+		if may, known := c20MayPrecede(d.At, call); known && !may {
+			continue // assigned only after the call
+		}
+		v := d.Val
+		for {
+			ct, isCT := v.(*ssa.ChangeType)
+			if !isCT {
+				break
+			}
+			v = ct.X
+		}
+		ms, isMake := v.(*ssa.MakeSlice)
+		if !isMake {
+			problems = append(problems, "the holder is "+tmOf(d.Val)+" @"+p.Pos(d.At.Pos())+", not a make(Trials, n)")
+			continue
+		}
+		ln := c20Origin(ms.Len)
+		ld, isLoad := ln.(*ssa.UnOp)
+		var fa *ssa.FieldAddr
+		if isLoad && ld.Op == token.MUL {
+			fa, _ = ld.X.(*ssa.FieldAddr)
+		}
+		if fa == nil || fieldOf(fa.X.Type(), fa.Field) != numRuns {
+			problems = append(problems, "the holder @"+p.Pos(d.At.Pos())+" has "+tmOf(ms.Len)+" slots, which is not read from NumRuns of the options Execute runs with")
+			continue
+		}
+		if c20Origin(fa.X) != optsE {
+			problems = append(problems, "the holder @"+p.Pos(d.At.Pos())+" is sized from NumRuns of "+tmOf(fa.X)+", Execute runs with the options "+tmOf(ctxCall.Call.Args[1]))
+			continue
+		}
+		sizingLoads = append(sizingLoads, sizing{ld, d.At})
+	}
+	if len(problems) > 0 {
+		r.Bad("holder.driver.sized", pos, "the experiment handed to Execute does not provably have one result slot per trial: "+strings.Join(problems, "; "))
+	} else {
+		r.OK("holder.driver.sized", pos, "the experiment handed to Execute has no holder yet or one made with NumRuns slots of the options in the call's context")
+	}
+	// NumRuns settled: no write of NumRuns between the read that sizes the holder and the call
+	var writes []ssa.Instruction
+	for _, fn := range family {
+		Instrs(fn, func(_ *ssa.BasicBlock, _ int, in ssa.Instruction) {
+			if c20WritesFieldAt(in, numRuns, optsT) {
+				writes = append(writes, in)
+				return
+			}
+			if ci, isCall := in.(ssa.CallInstruction); isCall && in != ssa.Instruction(call) {
+				if callee := ci.Common().StaticCallee(); callee != nil && callee != ex && c20FieldWriter(callee, numRuns, optsT, memo) {
+					writes = append(writes, in)
+				}
+			}
+		})
+	}
+	for _, sz := range sizingLoads {
+		ld := sz.ld
+		// the holder sized here is still the experiment's holder at the call only on paths that do not assign the holder again
+		kills := map[ssa.Instruction]bool{}
+		for _, d := range holderDefs {
+			if d.At != nil && d.At != sz.at {
+				kills[d.At] = true
+			}
+		}
+		bad, undecided := "", ""
+		for _, w := range writes {
+			m1, k1 := c20MayPrecede(ld, w)
+			m2, k2 := c20MayPrecedeAvoiding(w, call, kills)
+			if !k1 || !k2 {
+				undecided = "NumRuns is written @" + p.Pos(w.Pos()) + " inside a function literal whose time of execution is not known"
+				continue
+			}
+			if m1 && m2 && bad == "" {
+				bad = "NumRuns is written @" + p.Pos(w.Pos()) + " after the holder was sized from it @" + p.Pos(ld.Pos()) + " and before Execute runs: Execute iterates over the new count with a holder of the old length"
+			}
+		}
+		switch {
+		case bad != "":
+			r.Bad("holder.driver.numruns-settled", p.Pos(ld.Pos()), bad)
+		case undecided != "":
+			r.Undecided("holder.driver.numruns-settled", p.Pos(ld.Pos()), undecided)
+		default:
+			r.OK("holder.driver.numruns-settled", p.Pos(ld.Pos()), fmt.Sprintf("none of the %d write(s) of Options.NumRuns in the calling function lies between the sizing of the holder and the call of Execute", len(writes)))
+		}
+	}
 }
 
 // bodySucc returns the successor of the loop header that lies inside the loop.
